@@ -226,7 +226,7 @@ def _flow_classes(draw, case, lead):
 
 def _steps(draw, case, cx):
     """further evaluations with the same model instance"""
-    n = {"none": 0, "two": 2, "three": 3, None: 1}[draw(_rare([(0.2, "none"), (0.2, "two"), (0.1, "three")]))]
+    n = {"none": 0, "two": 2, "three": 3, None: 1}[draw(_rare([(0.15, "none"), (0.1, "three"), (0.1, "two")]))]
     ions = [i for i, s in enumerate(case["plasma"]["species"]) if s["q"] >= 1]
     steps = []
     for _ in range(n):
